@@ -173,9 +173,13 @@ class Case:
                 self.W = None
 
     def info(self, **kw):
-        d = {"n": self.n, "directed": self.directed,
-             "edges": [list(map(int, e)) for e in np.argwhere(self.A)
-                       if self.directed or e[0] < e[1]]}
+        d = {"n": self.n, "directed": self.directed}
+        if self.n <= 60:
+            d["edges"] = [list(map(int, e)) for e in np.argwhere(self.A)
+                          if self.directed or e[0] < e[1]]
+        else:
+            # (regenerated from the case id on replay)
+            d["links"] = int(self.A.sum() // (1 if self.directed else 2))
         d.update(kw)
         return d
 
@@ -584,9 +588,80 @@ def orientations(rng, A):
     return B
 
 
+def large_dense(ctx, Network, k):
+    """Dense graphs with a few hundred nodes: neighbour, triangle and motif
+    counts exceed 8- and 16-bit ranges.  Count-valued measures against their
+    definitions written as int64 matrix expressions."""
+    cid = f"dense:{k}"
+    rng = ctx.rng("dense", k)
+    directed = bool(k % 2)
+    n = [140, 220, 300][(k // 2) % 3] if ctx.thorough \
+        else [220, 140][(k // 2) % 2]
+    p = float(rng.choice([0.97, 1.0]))
+    A = (rng.random((n, n)) < p).astype(np.int8)
+    if directed:
+        np.fill_diagonal(A, 0)
+    else:
+        A = np.triu(A, 1)
+        A = A + A.T
+    c = Case(ctx, Network, A, directed, cid, None)
+    if c.net is None:
+        return
+    ctx.count("large_dense_graphs")
+    D = A.astype(np.int64)
+    kin, kout = D.sum(0), D.sum(1)
+    kbil = (D * D.T).sum(1)
+    with np.errstate(all="ignore"):
+        if directed:
+            c.check("indegree", "", kin, exact=True)
+            c.check("outdegree", "", kout, exact=True)
+            c.check("bildegree", "", kbil, exact=True)
+            den = (kin * kout - kbil).astype(float)
+            c.check("local_cyclemotif_clustering", "",
+                    np.diag(D @ D @ D) / den)
+            c.check("local_midmotif_clustering", "",
+                    np.diag(D @ D.T @ D) / den)
+            c.check("local_inmotif_clustering", "",
+                    np.diag(D.T @ D @ D) / (kin * (kin - 1.0)))
+            c.check("local_outmotif_clustering", "",
+                    np.diag(D @ D @ D.T) / (kout * (kout - 1.0)))
+        else:
+            kk = kout
+            tri = np.diag(D @ D @ D) / 2.0
+            lc = tri / (kk * (kk - 1) / 2.0)
+            c.check("degree", "", kk, exact=True)
+            c.check("local_clustering", "", lc)
+            c.check("global_clustering", "", lc.mean(), scalar=True)
+            c.check("transitivity", "",
+                    2 * tri.sum() / (kk * (kk - 1.0)).sum(), scalar=True)
+            c.check("average_neighbors_degree", "", (D @ kk) / kk)
+            c.check("max_neighbors_degree", "",
+                    (D * kk[None, :]).max(axis=1), exact=True)
+            common = D @ D
+            union = kk[:, None] + kk[None, :] - common
+            mi = common / union
+            np.fill_diagonal(mi, 1.0)
+            c.check("matching_index", "", mi,
+                    mask=~np.eye(n, dtype=bool))
+            c.check("nsi_degree", "", kk + 1.0)
+            Dp = D + np.eye(n, dtype=np.int64)
+            kp = Dp.sum(1)
+            c.check("nsi_local_clustering", "",
+                    np.diag(Dp @ Dp @ Dp) / (kp * kp.astype(float)))
+        c.check("link_density", "", D.sum() / (n * (n - 1.0)), scalar=True,
+                post=lambda v: v() if callable(v) else v) \
+            if callable(getattr(c.net, "link_density", None)) else None
+    ctx.maxstat("large_dense_max_count", float(np.diag(D @ D @ D).max()))
+
+
 def run(ctx):
     from pyunicorn.core.network import Network
     textbook_selfcheck()
+    # 0. a few large dense graphs (counts beyond 16-bit ranges)
+    for k in range(12 if ctx.thorough else 4):
+        if ctx.mine(k) and ctx.want(f"dense:{k}"):
+            with ctx.guard(300):
+                large_dense(ctx, Network, k)
     ctx.note("measures", METHODS)
     ctx.note("not_compared_on_directed_networks",
              "higher_order_transitivity, local_cliquishness (refused), "
